@@ -2,6 +2,7 @@ package sim
 
 import (
 	"errors"
+	smtp "github.com/emersion/go-smtp"
 	"io"
 	"net"
 	"os"
@@ -73,11 +74,12 @@ type pipeHalf struct {
 	deadline int64
 	wakerAt  int64
 
-	rclass int   // residue class of the reading actor
-	lat    []Dur // per-segment latency, cycled
-	latIdx int
-	caps   []int // short-read caps for the reader, cycled; 0 = whole segment
-	capIdx int
+	rclass      int   // residue class of the reading actor
+	lat         []Dur // per-segment latency, cycled
+	latIdx      int
+	caps        []int // short-read caps for the reader, cycled; 0 = whole segment
+	capIdx      int
+	eofWithData bool // Read returns the last octets together with io.EOF when the FIN is already there
 
 	// recording
 	buf      []byte
@@ -112,17 +114,20 @@ type SimConn struct {
 	rd, wr *pipeHalf
 	faults ConnFaults
 
-	wmu             sync.Mutex
-	nwrites         int
-	splitIx         int
-	lateWrites      int // Write calls after this endpoint was closed
-	blocked         int // Writes that found the send window full
-	blockedTimeouts int // ... and ended by the write deadline
-	wdeadline       int64
-	closeHook       func() // called once, on the first Close of this endpoint
-	closeOnce       sync.Once
+	wmu                sync.Mutex
+	nwrites            int
+	splitIx            int
+	lateWrites         int // Write calls after this endpoint was closed
+	blocked            int // Writes that found the send window full
+	blockedTimeouts    int // ... and ended by the write deadline
+	blockedUnderLock   int // a write that would block for ever was issued under Conn.locker
+	unboundedUnderLock int // writes without a deadline issued while the Conn\'s mutex was held
+	wdeadline          int64
+	closeHook          func() // called once, on the first Close of this endpoint
+	closeOnce          sync.Once
 
-	wclass        int // residue class of the instants at which this endpoint writes
+	wclass        int        // residue class of the instants at which this endpoint writes
+	owner         *smtp.Conn // server endpoint: the Conn that serves it (announced through smtp.VerifNewConn)
 	local, remote simAddr
 }
 
@@ -173,7 +178,7 @@ func closedErr(op string) error { return &net.OpError{Op: op, Net: "sim", Err: n
 // instant the other actor has run to its next blocking point, because the fake
 // clock only moves when every goroutine is blocked.
 func (c *SimConn) ownInstant(class int) {
-	if int(time.Now().UnixNano()%classMod) != class%classMod && !underConnLock() {
+	if int(time.Now().UnixNano()%classMod) != class%classMod && !connLocked(c) {
 		sleepClass(class, 0)
 	}
 }
@@ -210,6 +215,11 @@ func (c *SimConn) Read(b []byte) (int, error) {
 				}
 				h.rlog = append(h.rlog, RRec{Off: h.consumed, N: n, At: now})
 				h.consumed += n
+				if h.eofWithData && len(h.q) == 0 && h.wclosed && !h.reset {
+					// the last octets and the end of the stream in one call, as io.Reader
+					// allows and crypto/tls does when the close_notify is already there
+					return n, io.EOF
+				}
 				return n, nil
 			}
 			wake := s.at
@@ -285,6 +295,12 @@ func (c *SimConn) Write(b []byte) (int, error) {
 	}
 	c.nwrites++
 	nw := c.nwrites
+	if c.owner != nil && !raceTier && c.wdeadline == 0 && len(b) > 0 && smtp.VerifConnLocked(c.owner) {
+		// A write with no deadline, issued while the Conn's mutex is held: if the peer stops
+		// reading it never returns, and Server.Close, which needs the mutex to end the
+		// connection, never returns either.
+		c.unboundedUnderLock++
+	}
 	var cuts []int
 	if len(c.faults.WriteSplit) > 0 {
 		rest := len(b)
@@ -314,9 +330,21 @@ func (c *SimConn) Write(b []byte) (int, error) {
 	if c.faults.FailWriteAt > 0 && nw >= c.faults.FailWriteAt {
 		return 0, errPipe
 	}
-	if c.faults.BlockWriteAt > 0 && nw == c.faults.BlockWriteAt && len(b) > 0 && !underConnLock() {
-		if err := c.blockedWrite(h); err != nil {
-			return 0, err
+	if c.faults.BlockWriteAt > 0 && nw == c.faults.BlockWriteAt && len(b) > 0 {
+		if !connLocked(c) {
+			if err := c.blockedWrite(h); err != nil {
+				return 0, err
+			}
+		} else if c.faults.BlockFor == 0 {
+			// The simulation cannot park a goroutine that holds Conn.locker (whoever waits for
+			// the mutex is not durably blocked and the fake clock would freeze), so the hazard
+			// is recorded instead: with no write deadline this write never returns, the lock is
+			// never released, and Server.Close - which needs it to end the connection - hangs.
+			c.wmu.Lock()
+			if c.wdeadline == 0 {
+				c.blockedUnderLock++
+			}
+			c.wmu.Unlock()
 		}
 	}
 	if len(b) == 0 {
